@@ -6,8 +6,7 @@ CONC = 'mutual exclusion of std::sync::RwLock (each ActivePeers method body is o
 
 PROPERTIES = {
     'C04': dict(
-        units=['active_peers'],
-        thorough_units=['kani_peers_bounded'],
+        units=['active_peers', 'enum_cm'],
         canaries=['active_peers'],
         scope='every clause of C04 for every SEQUENTIAL history of operations on the active-peer set: each real mutating function is '
               'proved equal to a spec transition from an arbitrary pre-state; lemmas prove that every transition preserves the '
@@ -22,7 +21,7 @@ PROPERTIES = {
         assumptions=[CONC, 'tokio broadcast: send appends, a receiver created under the lock sees exactly the later events'],
     ),
     'C05': dict(
-        units=['active_peers', 'kani_tiebreak'],
+        units=['active_peers', 'kani_tiebreak', 'enum_cm'],
         canaries=['active_peers'],
         counterexample=cex.cex_c05,
         scope='the tie-break keeps the connection dialed by the greater PeerId: proved for the real function over all 2^512 id pairs '
@@ -63,6 +62,7 @@ PROPERTIES = {
     'C06': dict(
         units=['wire', 'kani_wire', 'timeout', 'kani_timeout'],
         canaries=['wire', 'streams'],
+        counterexample=cex.cex_c06,
         scope='NARROW: every function anemo itself runs on attacker-controlled bytes before the user service is called returns an error instead '
               'of panicking, for every byte string: read_version_frame (Kani, all inputs), read_request / read_response, from_raw, Version::new, '
               'StatusCode::new, try_parse_timeout, both Timeout::call, and BiStreamRequestHandler::handle swallows the error so only that stream ends. '
@@ -111,7 +111,7 @@ PROPERTIES = {
         assumptions=[CONC],
     ),
     'C13': dict(
-        units=['active_peers'],
+        units=['active_peers', 'enum_cm'],
         canaries=['dialing'],
         scope='SAFETY clauses only. Back-off: every failure adds one to the count and the next attempt is allowed no sooner than min(max-backoff, k x step) '
               'after the failure was noticed (exact formula, strict comparison in the eligibility filter); who is dialed: the lifted filter closure equals the '
